@@ -96,6 +96,10 @@ type C01Case struct {
 	// Mutate: build once, change the source tree (kind path), build again and judge the second
 	// package against the changed tree: the payload reflects the sources as they are at packaging time.
 	Mutate string `json:"mutate,omitempty"`
+	// Cwd / Spelling: the build runs with this working directory (fixture relative) and the first entry's source is
+	// written as Spelling, relative to it (List[0].Src names the same files for the reference planner)
+	Cwd      string `json:"cwd,omitempty"`
+	Spelling string `json:"spelling,omitempty"`
 }
 
 // c01Templates is the content-entry alphabet (simplest first). Σc′ = the first nQuick.
@@ -144,6 +148,9 @@ func c01Templates() []model.Entry {
 		{Src: "/abs/target", Dst: "/usr/lib/applink2", Type: "symlink", Owner: "app", Group: "grp"},
 		{Src: "etc/app.conf", Dst: "/etc/expanded.conf", Type: "config|noreplace", Expand: true, Mode: 0o600, Owner: "app", Group: "grp", MTime: EntryMTime},
 		{Dst: "/var/lib/expanded", Type: "dir", Expand: true, Mode: 0o2770, Owner: "app"},
+		{Src: "etc/app.conf", Dst: "/etc/systemd/system/dev-disk-by\\x2dlabel-data.swap"},
+		{Src: "/dev/disk/by\\x2dlabel/data", Dst: "/etc/back\\slash-link", Type: "symlink"},
+		{Dst: "/var/lib/back\\slash dir", Type: "dir"},
 	}
 	// on-disk symlinks with non-canonical targets (shipped literally), inserted into the quick alphabet
 	links := []model.Entry{
@@ -297,6 +304,22 @@ func init() {
 					}
 				}
 			}
+			// sources written relative to the working directory (the directory itself, dot files, globs without a common directory)
+			for _, sp := range []struct{ cwd, spelling, src, typ string }{
+				{"dots", ".", "dots", "tree"}, {"dots", "./", "dots", "tree"}, {"dots/sub", "..", "dots", "tree"}, {"dots", ".config", "dots/.config", "tree"},
+				{"dots", ".e*", "dots/.e*", ""}, {"dots", "./.e*", "dots/.e*", ""}, {"dots", "*nv", "dots/*nv", ""}, {"dots", ".*/settings", "dots/.*/settings", ""},
+				{"dots", ".env", "dots/.env", ""}, {"dots", "..data", "dots/..data", "config"}, {"dots/sub", "../.env", "dots/.env", ""}, {"dots", ".config", "dots/.config", ""},
+			} {
+				for _, dst := range []string{"/opt/app", "/opt/app/"} {
+					e := model.Entry{Src: sp.src, Dst: dst, Type: sp.typ}
+					if !yield(C01Case{Setting: sets[0], List: []model.Entry{e}, Cwd: sp.cwd, Spelling: sp.spelling}) {
+						return
+					}
+					if !yield(C01Case{Setting: Setting{Name: "mtime=unset", MTime: "unset"}, List: []model.Entry{e, {Src: "etc/app.conf", Dst: "/opt/app/other.conf"}}, Cwd: sp.cwd, Spelling: sp.spelling}) {
+						return
+					}
+				}
+			}
 			// pairs under every setting (compression settings: pairs of untagged templates only)
 			for _, s := range sets {
 				for i, a := range all {
@@ -364,7 +387,24 @@ func checkC01(env *engine.Env, ci any) engine.Outcome {
 	c := ci.(C01Case)
 	t := tree(env)
 	var out engine.Outcome
-	text := c.Setting.doc(c.List, t.Root).YAML()
+	doc := c.Setting.doc(c.List, t.Root)
+	if c.Cwd != "" {
+		if l, ok := doc["contents"].([]any); ok && len(l) > 0 {
+			if m, ok := l[0].(map[string]any); ok {
+				m["src"] = c.Spelling
+			}
+		}
+		old, werr := os.Getwd()
+		if werr == nil {
+			werr = os.Chdir(t.P(c.Cwd))
+		}
+		if werr != nil {
+			out.HarnessError = werr.Error()
+			return out
+		}
+		defer os.Chdir(old)
+	}
+	text := doc.YAML()
 	formats := Formats
 	if c.Setting.Only != "" {
 		formats = []string{c.Setting.Only}
